@@ -15,7 +15,7 @@
 (***************************************************************************)
 EXTENDS FindingsC04
 
-CONSTANT Repaired     \* subset of 1..11: findings F-C04-n repaired in the tree under test
+CONSTANT Repaired     \* subset of 1..16: findings F-C04-n repaired in the tree under test
 
 StillOpen(n) == n \notin Repaired
 
@@ -26,12 +26,23 @@ Reached(via, opts) ==
    /\ StillOpen(3) => ~HasEdge(via, "encoding", "headers")
    /\ StillOpen(4) => ~HasEdge(via, "header", "examples")
    /\ StillOpen(5) => ~(HasEdge(via, "schema", "discriminator") \/ HasEdge(via, "schema", "xml"))
+   /\ StillOpen(16) => ~HasEdge(via, "link", "server")
 
 (* the loader refuses a reference whose target is missing wherever it looks for references at all *)
 LoaderVisits(x) == StillOpen(10) => (~UnvisitedByLoader(x) /\ ~HasEdge(x.via, "mediaType", "encoding") /\ ~HasEdge(x.via, "header", "examples"))
 
+(* the mode in which the code judges the example(s) of a place.  The repair of 14 (the mode travels in a context *)
+(* derived for the Request Body / Response, not in the shared options) also ends 13.                           *)
+ImplMode(sites, via, at, noopt) ==
+   IF ~StillOpen(14) THEN ModeOf(via)
+   ELSE IF StillOpen(13) /\ noopt THEN "any"
+   ELSE StickyMode(sites, via, at)
+SeenInImplMode(doc, sites, v, noopt) ==
+   (v.rule \in ExR /\ v.kind \in ModeKinds) => v.rule \in ExRulesAt(doc, v.kind, v.at, ImplMode(sites, v.via, v.at, noopt))
+
 ValidateSees(doc, v, opts) ==
    /\ Reached(v.via, opts)
+   /\ StillOpen(15) => ~NoSchemaExamples(doc, v)
    /\ StillOpen(4) => ~HeaderUnchecked(v)
    /\ StillOpen(6) => ~NestedRefSibling(v)
    /\ StillOpen(7) => ~TemplateConflict(v)
@@ -40,6 +51,8 @@ ValidateSees(doc, v, opts) ==
 (* the loader also refuses a parameter that has both schema and content (loader.go resolveParameterRef) *)
 LoaderRefuses(doc, v) ==
    \/ v.rule = "dangling_ref" /\ LoaderVisits(v)
+   \* the loader's map and reference-holder decoders refuse null; servers, tags, server variables and examples reach Validate
+   \/ v.rule = "null_member" /\ v.kind \notin {"server", "tag", "serverVariable", "example"}
    \/ v.rule = "schema_xor_content" /\ v.kind = "parameter" /\ Has(AtPtr(doc, v.at), "schema")
 ImplSees(doc, v, opts) == LoaderRefuses(doc, v) \/ ValidateSees(doc, v, opts)
 
@@ -54,8 +67,12 @@ Refusers(doc, sites) == {x \in sites : RefusesBase(doc, x)}
 SkippedWithoutExamples(x, opts) ==
    "DisEx" \in opts /\ LastEdge(x.via) \in {<<"parameter", "examples">>, <<"mediaType", "examples">>}
 
-ImplAcceptR(doc, Vs, refusers, opts) ==
-   /\ \A v \in Vs : Enabled(v, opts) => ~ImplSees(doc, v, opts)
+(* msites = ModeSites(doc, sites); noopt: no option at all reaches Validate *)
+ImplAcceptR(doc, Vs, refusers, sites, msites, opts, noopt) ==
+   /\ \A v \in Vs : Enabled(v, opts) => ~(ImplSees(doc, v, opts) /\ (LoaderRefuses(doc, v) \/ SeenInImplMode(doc, sites, v, noopt)))
    /\ \A x \in refusers : SkippedWithoutExamples(x, opts)
-ImplAccept(doc, Vs, opts) == ImplAcceptR(doc, Vs, Refusers(doc, Sites(doc)), opts)
+   /\ ("DisEx" \notin opts) =>
+         \A x \in msites : Reached(x.via, opts) => ExRulesAt(doc, x.kind, x.at, ImplMode(sites, x.via, x.at, noopt)) \subseteq ExRulesAt(doc, x.kind, x.at, ModeOf(x.via))
+ImplAccept(doc, Vs, opts, noopt) ==
+   LET sites == Sites(doc) IN ImplAcceptR(doc, Vs, Refusers(doc, sites), sites, ModeSites(doc, sites), opts, noopt)
 =============================================================================
